@@ -140,6 +140,9 @@ class EthCoords:
     result = TSeq(T2)
     loop_headers = {0: "for x in range(0, w, 12):", 1: "for y in range(0, h, 12):"}
 
+    def sample_domain(width, height):
+        return width <= 40 and height <= 40
+
     def inv_0_true(width):
         return width >= 1
 
